@@ -42,6 +42,9 @@ type world struct {
 	short     []string // compact text
 	kinds     map[string]int
 	isCrash   bool
+	scratch   []byte // ONE scratch buffer shared by every GetBucket of the history (the agent's senders do that)
+	nGet      int
+	lastLen   int
 	aborted   bool // an operation that cannot fail on correct code failed: stop the history, report
 	diskOnly  int // crash worlds: print the directory contents of this shard only (-1 = all)
 }
@@ -117,6 +120,34 @@ func getErrKind(err error) string {
 	panic("unknown GetBucket error: " + s)
 }
 
+// pad returns the shared scratch buffer, now and then left by the "caller" in another shape: nil, short len with
+// large cap, longer than any body. GetBucket must return exactly the second's bytes whatever it is given.
+func (w *world) pad() *[]byte {
+	w.nGet++
+	switch (w.nGet * 7) % 11 {
+	case 0:
+		w.scratch = nil
+	case 3:
+		b := make([]byte, 3, 600)
+		copy(b[:cap(b)], bytes.Repeat([]byte{0xAA}, 600))
+		w.scratch = b
+	case 6:
+		w.scratch = bytes.Repeat([]byte{0xBB}, 700)
+	case 8:
+		if cap(w.scratch) > 0 {
+			w.scratch = w.scratch[:w.nGet%(cap(w.scratch)+1)]
+		}
+	}
+	return &w.scratch
+}
+
+func (w *world) gotLen(n int) {
+	if n < w.lastLen {
+		w.kinds["get_shorter_after_longer"]++
+	}
+	w.lastLen = n
+}
+
 func (w *world) rec(sh int, op, obs, short string, kind string) {
 	w.ops = append(w.ops, opT(sh, op))
 	w.obs = append(w.obs, obs)
@@ -155,8 +186,7 @@ func (w *world) put(sh int, t uint32, body []byte, age bool, fails *[]failure) i
 }
 
 func (w *world) get(sh int, id int64, t uint32, fails *[]failure) {
-	var scratch []byte
-	data, err := w.st.GetBucket(sh, id, t, &scratch)
+	data, err := w.st.GetBucket(sh, id, t, w.pad())
 	var e *entry
 	for _, x := range w.spec[sh] {
 		if x.id == id && id != 0 {
@@ -175,12 +205,17 @@ func (w *world) get(sh int, id int64, t uint32, fails *[]failure) {
 		return
 	}
 	w.rec(sh, fmt.Sprintf("OGet %d %d", id, t), fmt.Sprintf("RGet (GOk %s)", hexB(data)), fmt.Sprintf("G%d:%d:t%d", sh, id, t), "get/ok")
+	w.gotLen(len(data))
 	if w.erased[sh][id] {
 		*fails = append(*fails, failure{"never_returns_erased", fmt.Sprintf("get id=%d returned data after erase", id)})
 	}
 	if !w.corrupted[sh] {
 		if e == nil || e.time != t || !bytes.Equal(e.body, data) {
-			*fails = append(*fails, failure{"get_identical_bytes", fmt.Sprintf("get id=%d t=%d returned %d bytes that are not the bytes put", id, t, len(data))})
+			want := -1
+			if e != nil {
+				want = len(e.body)
+			}
+			*fails = append(*fails, failure{"get_identical_bytes", fmt.Sprintf("get id=%d t=%d returned %d bytes that are not the %d bytes put (shared scratch buffer)", id, t, len(data), want)})
 		}
 	} else if !w.putBodies[sh][string(data)] {
 		*fails = append(*fails, failure{"never_returns_corrupted", fmt.Sprintf("get id=%d t=%d returned bytes never put", id, t)})
@@ -384,8 +419,10 @@ func (w *world) drainAll(fails *[]failure, withDisk bool) [][]*entry {
 			if id == 0 {
 				break
 			}
-			var scratch []byte
-			data, err := w.st.GetBucket(sh, id, t, &scratch)
+			data, err := w.st.GetBucket(sh, id, t, w.pad())
+			if err == nil {
+				w.gotLen(len(data))
+			}
 			if err != nil {
 				k := getErrKind(err)
 				w.rec(sh, fmt.Sprintf("OGet %d %d", id, t), "RGet "+k, fmt.Sprintf("G%d:%d", sh, id), "get/"+k)
@@ -781,12 +818,18 @@ func crashObserve(st *agent.DiskBucketStorage, dir string, sh int) (string, []*e
 		fails = append(fails, failure{"sizes_match_files", fmt.Sprintf("after restart shard %d total=%d unsent=%d files=%d", sh, t0, u0, sum0)})
 	}
 	var secs []string
+	var scratch []byte // shared by all reads of this shard; initial shape varies with the shard and its size
+	switch (sh + len(f0) + int(t0)) % 3 {
+	case 1:
+		scratch = make([]byte, 2, 400)
+	case 2:
+		scratch = bytes.Repeat([]byte{0xCC}, 300)
+	}
 	for {
 		t, id := st.ReadNextTailBucket(sh)
 		if id == 0 {
 			break
 		}
-		var scratch []byte
 		data, err := st.GetBucket(sh, id, t, &scratch)
 		if err != nil {
 			secs = append(secs, fmt.Sprintf("(%d, %d, (-1), (-1))", t, id))
